@@ -16,7 +16,8 @@ variables they assign are joined.  Every computation that can raise is sequenced
 monad in program order.  Things the translator cannot evaluate (the equation-of-state / excess
 region) become OPAQUE values; an opaque value (or a functor built with the wrong number of
 positional arguments) that can reach `self._H` / `self._S` is a TranslatorError.  Positional
-arguments of functors are matched against the signatures parsed from free_energy.py."""
+arguments of functors are matched against the signatures parsed from free_energy.py: number of values and,
+because thermosteam names the wiring variables after the parameters, their names (= order)."""
 import ast, os, copy
 from C07_pysubset import Src, ExprTr, TranslatorError, qlit, module_imports, strip_docstring, header, INTEGRALS
 from C07_free_energy import is_handle_param
@@ -293,7 +294,11 @@ class Interp:
         terms = []
         for p, a, an in zip(params, args, argnodes):
             if isinstance(an, ast.Name) and an.id != p:
-                self.notes.add(f'{REL}:{node.lineno}: {fname} parameter {p!r} receives the variable {an.id!r}')
+                # order check: thermosteam names the wiring variables after the functor parameters
+                msg = (f'{REL}:{node.lineno}: {fname} parameter {p!r} receives the variable {an.id!r} '
+                       f'(positional order does not match the signature {tuple(params)})')
+                self.notes.add(msg)
+                return V('opaque', why=msg)
             if a.kind == 'opaque':
                 return V('opaque', why=a.why)
             if is_handle_param(p):
